@@ -13,7 +13,9 @@ struct C06
     const Driver* drv;
     const SchemaShape* sh;
     int msg;
-    int group_view = -1; // >= 0: size_bytes_checked on that top-level group view
+    int group_view = -1; // >= 0: size_bytes_checked on that group view ...
+    std::vector<PathStep> group_path; // ... of the entry reached through this path (empty: a top-level group)
+    const GroupShape* group_shape = nullptr;
     std::set<std::string> known;
     Result* res;
     sim::Hasher* fp;
@@ -50,6 +52,7 @@ struct C06
         {
             rq.target = T_GROUP_AT_P;
             rq.member = group_view;
+            rq.path = group_path;
         }
         else
         {
@@ -87,7 +90,7 @@ struct C06
     {
         evals++;
         sim::stats().count("c06.evaluations");
-        Walk w = group_view >= 0 ? walk_group(*sh, sh->levels[(std::size_t)sh->messages[(std::size_t)msg]].groups[(std::size_t)group_view], bytes.data(), n) : walk_message(*sh, msg, bytes.data(), n);
+        Walk w = group_view >= 0 ? walk_group(*sh, *group_shape, bytes.data(), n) : walk_message(*sh, msg, bytes.data(), n);
         if(w.aborted)
         {
             sim::stats().count("c06.skipped_unbounded_model_walk");
@@ -158,24 +161,46 @@ inline Result exec_c06(const Plan& plan)
     std::vector<StructField> sf = struct_fields(sh, f);
     if(c.group_view >= 0)
     {
-        const LevelShape& lv = sh.levels[(std::size_t)sh.messages[(std::size_t)fs.msg]];
+        // gpath "g:e,g:e": entries to descend through before picking group `group_view`; entries that the
+        // frame does not have fall back to the top-level group
+        const Node* node = &f.root;
+        {
+            std::istringstream gp(plan.get("gpath"));
+            std::string t;
+            while(std::getline(gp, t, ','))
+            {
+                const auto colon = t.find(':');
+                if(colon == std::string::npos) continue;
+                const std::size_t gi = (std::size_t)std::strtoul(t.c_str(), nullptr, 10), ei = (std::size_t)std::strtoul(t.c_str() + colon + 1, nullptr, 10);
+                if(gi >= node->groups.size() || ei >= node->groups[gi].entries.size()) break;
+                c.group_path.push_back({(int)gi, (u64)ei});
+                node = &node->groups[gi].entries[ei];
+            }
+        }
+        const LevelShape& lv = sh.levels[(std::size_t)node->level];
         if(c.group_view >= (int)lv.groups.size())
         {
-            res.signature = "HARNESS:no-such-group";
-            return res;
+            // no such group below that entry: use the message view instead
+            c.group_view = -1;
+            c.group_path.clear();
         }
-        const GroupInst& g = f.root.groups[(std::size_t)c.group_view];
-        // rebase: the group image alone
-        base.assign(f.bytes.begin() + (long)g.start, f.bytes.begin() + (long)g.end);
-        std::vector<StructField> sf2;
-        for(auto& s : sf)
-            if(s.pos >= g.start && s.pos < g.end)
-            {
-                StructField t = s;
-                t.pos -= g.start;
-                sf2.push_back(t);
-            }
-        sf = sf2;
+        else
+        {
+            c.group_shape = &lv.groups[(std::size_t)c.group_view];
+            const GroupInst& g = node->groups[(std::size_t)c.group_view];
+            // rebase: the group image alone
+            base.assign(f.bytes.begin() + (long)g.start, f.bytes.begin() + (long)g.end);
+            std::vector<StructField> sf2;
+            for(auto& s : sf)
+                if(s.pos >= g.start && s.pos < g.end)
+                {
+                    StructField t = s;
+                    t.pos -= g.start;
+                    sf2.push_back(t);
+                }
+            sf = sf2;
+            if(!c.group_path.empty()) sim::stats().count("probe.c06.nested_group_view_plans");
+        }
     }
     std::vector<u8> bytes = base;
     u64 n = bytes.size();
@@ -251,7 +276,12 @@ inline Plan gen_c06(u64 seed, const std::string& tier)
     p.seti("msg", msg);
     p.seti("tree", (long long)(wl.next() >> 20));
     const LevelShape& lv = sh.levels[(std::size_t)sh.messages[(std::size_t)msg]];
-    if(!lv.groups.empty() && wl.chance(1, 4)) p.seti("group_view", (long long)wl.below(lv.groups.size()));
+    if(!lv.groups.empty() && wl.chance(1, 3))
+    {
+        p.seti("group_view", (long long)wl.below(3));
+        // half of the group views are nested ones: a group of an entry of a group ...
+        if(wl.chance(1, 2)) p.set("gpath", std::to_string(wl.below(lv.groups.size())) + ":" + std::to_string(wl.below(2)) + (wl.chance(1, 3) ? "," + std::to_string(wl.below(2)) + ":0" : ""));
+    }
     const int mode = (int)fl.below(10);
     auto add = [&](const std::string& name, std::vector<long long> a) {
         Op o;
